@@ -15,14 +15,14 @@ def add(pid, technique, text, note, ref):
 
 add("C13", "Hypothesis generated search + exhaustive small-lattice enumeration vs brute-force exact-rational dominance oracle",
     "Generated-input search: every sequence of <=4/5 points of small 2-D/3-D lattices under 8 exact cones is enumerated, "
-    "plus thousands of random (cone, point list) cases with ties, chains and duplicates up to 300 points; the returned index "
+    "plus thousands of random (cone incl. K>m, integer-dtype and sheared matrices; point list) cases with ties, chains and duplicates up to 300 points; the returned index "
     "arrays of both routines are compared with a brute-force dominance matrix evaluated in exact rational arithmetic.",
     "Trusted: Python fractions, numpy indexing; cones pointed+solid; lattice spacing >= 1/4 (np.allclose in the naive routine).",
     "DESIGN.md section 3 C13")
 
 add("C12", "Hypothesis generated search + lattice enumeration vs exact rational facet inequalities; angle sweeps vs closed forms",
     "dominates()/is_inside() on dyadic cones and lattice vectors are compared with W(a-b)>=0 in exact rational arithmetic together with the "
-    "reflexive/transitive/translation/scaling/antisymmetry/batched laws; bundled cones are swept over their parameter ranges "
+    "reflexive/transitive/translation/scaling/antisymmetry/batched laws (incl. integer-dtype and sheared cone matrices); bundled cones are swept over their parameter ranges "
     "(theta in (0.5,179.5), ice-cream K=3..40) against closed-form membership, unit-normal, tangency and spacing conditions.",
     "Trusted: Python fractions; dyadic inputs make the float evaluation exact; 1e-6 degree band around facet directions.",
     "DESIGN.md section 3 C12")
@@ -59,7 +59,7 @@ add("C10", "Hypothesis margin-targeted region pairs vs certificate-checked LP / 
 add("C11", "Hypothesis margin-targeted rectangle pairs and families vs per-vertex LP oracle with verified certificates",
     "confidence_region_check_dominates is checked for soundness under every cone class and for completeness under two-facet 2-D cones against "
     "min over vertices of a certified LP margin, with nested / degenerate / equal-coordinate pairs; VOGP and EpsilonPAL.compute_pessimistic_set "
-    "are compared with the exact non-dominated family.",
+    "are compared with the exact non-dominated family and, exactly (ties included), with the definition applied to the pairwise comparison.",
     "Band 1e-9*scale; LP certificates verified by arithmetic.", "DESIGN.md section 3 C11")
 
 add("C19", "Hypothesis generated value sets vs NNLS/least-distance oracles, definitional shift test, F1 recomputation and metamorphic laws, independent hypervolume",
@@ -87,9 +87,9 @@ add("C14", "model-based testing: generated update histories on both design-space
     "DESIGN.md section 3 C14")
 
 add("C04", "Hypothesis generated configurations; real schedule + real region builder; exact Gaussian/chi-square tail sums with dyadic condensation bound",
-    "For 8 algorithm/confidence-type variants and generated (delta, K, m, noise / posterior covariance) the real compute_radius/alpha/beta at contraction 1 is "
+    "For 8 algorithm/confidence-type variants and generated (delta, K, m, batch size, noise / posterior covariance) the real compute_radius/alpha/beta at contraction 1 is "
     "evaluated per round, pushed through design_space.update with a stub model of known mean/covariance, the displayed geometry is read back and the exact "
-    "per-round miss probability is summed over t <= 4096 plus a rigorous condensation bound to t = 2^60; K x sum must not exceed delta.",
+    "per-round miss probability is summed over t <= 4096 plus a rigorous condensation bound to t = 2^60; K x sum must not exceed delta; the namespace route is cross-checked against real algorithm instances.",
     "Horizon 2^60; monotone per-round terms checked on the grid; schedules read through unbound methods on a namespace carrying exactly the inputs the property lists.",
     "DESIGN.md section 3 C04")
 add("C08", "Hypothesis generated instances: closed-form failure probability by quadrature, Monte-Carlo with exact binomial test, proxy-log recomputation of P",
@@ -134,7 +134,7 @@ add("C07", "Hypothesis generated acquisition value tables for the two discrete o
     "(i) optimize_acqf_discrete / optimize_decoupled_acqf_discrete on table-backed acquisitions with ties, duplicates, costs and q up to beyond the table size: distinct rows, "
     "non-increasing values, multiset = top-q, values/objective indices belong to the returned rows, evaluation index restored; (ii) for all nine algorithms each step's queries "
     "(from the proxy on problem.evaluate) must be active designs maximising the acquisition recomputed on the state the code used, batches distinct and non-increasing, and the "
-    "model's data after the step must be its data before plus exactly the logged (x, y, objective) triples in order.",
+    "model's data after the step must be its data before plus exactly the logged (x, y, objective) triples in order (incl. runs with 9..24 designs whose active sets do not iterate in sorted order).",
     "Near-ties at 1e-9 relative accept either choice; Thompson acquisition checked against the tables it actually returned (recording subclass bound at the name the algorithm imports).",
     "DESIGN.md section 3 C07")
 
@@ -142,7 +142,7 @@ add("C18", "model-based testing of refine histories with exact dyadic arithmetic
     "(a) generated sequences of refine_design / update / should_refine_design calls on the adaptive design space (d=1..3, max depth 2..5, any leaf below the maximum depth in any order) "
     "checked with exact rational arithmetic: 2^d children, half side, tiling of the parent, centres, depth+1 <= max, parent's region, earlier entries untouched, leaves tile the cube; "
     "(b) VOGP_AD runs on generated continuous problems: after every step S and P are leaves with interior-disjoint cells, all leaves tile the unit cube, a refined node is replaced by its "
-    "children in the same set, every member of P is at the maximum depth.",
+    "children in the same set, every member of P is at the maximum depth; (c) epsiloncovering() on injected candidate sets of mixed depths must not declare anything.",
     "Cells are dyadic (Fractions exact); VOGP_AD with generated hyper-parameters; in_dim >= out_dim (F12 under C06/C15 otherwise).", "DESIGN.md section 3 C18")
 
 PENDING = {}
